@@ -19,7 +19,8 @@
 EXTENDS Naturals, Sequences, FiniteSets, TLC, Json
 
 Styles == {"return", "arg"}
-HookKinds == {"ok", "imported", "importedUnexported", "arity0", "arity1", "dstMismatch", "srcMismatch",
+\* funcVar: a package-level VARIABLE that holds a function of fitting type - callable like any function
+HookKinds == {"ok", "funcVar", "imported", "importedUnexported", "arity0", "arity1", "dstMismatch", "srcMismatch",
               "twoResults", "nonErrResult", "notFunc", "missing"}
 \* further parameters of the hook relative to the additional arguments (int, string) of the method:
 \* none; all of them with their types; fewer; other types; "wider": the first one declared as interface{},
@@ -34,7 +35,8 @@ Cfg == [style: Styles, recv: BOOLEAN, srcPtr: BOOLEAN, dstPtr: BOOLEAN, retErr: 
 \* configurations that make sense: extra-parameter variants need additional arguments to relate to;
 \* the shape variants of a broken hook are explored with the simplest pointer/extra choice
 Sensible(c) == /\ (c.nargs = 0 => c.hExtra = "none")
-               /\ (c.kind \notin {"ok", "imported"} => c.hExtra = "none" /\ c.hDstPtr /\ c.hSrcPtr)
+               /\ (c.kind \notin {"ok", "imported", "funcVar"} => c.hExtra = "none" /\ c.hDstPtr /\ c.hSrcPtr)
+               /\ (c.kind = "funcVar" => c.hExtra \in {"none", "all"} /\ ~c.recv)
                /\ (c.kind \in {"twoResults", "nonErrResult"} => ~c.hErr)
                \* an imported hook needs imported operand types, and an imported source cannot be a receiver (C08)
                /\ (c.kind \in {"imported", "importedUnexported"} => ~c.recv)
@@ -91,7 +93,7 @@ Done == pc = "done"
 
 ----------------------------------------------------------------------------
 (* C10 / C07 on the model *)
-Fits(c) == /\ c.kind \in {"ok", "imported"}
+Fits(c) == /\ c.kind \in {"ok", "imported", "funcVar"}
            /\ (c.hErr => c.retErr)
            /\ c.hExtra \in {"none", "all", "wider"}
            /\ ~(c.argAny /\ c.hExtra = "all")
